@@ -206,6 +206,59 @@ def _user_error_models(ctx, rng, case, x):
                        'reference': ref, 'case': case.describe()})
 
 
+def _singular_elsewhere(ctx, rng, case, x):
+    """a mechanistic model whose output is not finite at a time at which
+    that output was NOT measured (a log-concentration before the dose, a
+    ratio at t = 0): the entry belongs to no measurement, so total,
+    pointwise values and gradient are those of the measurements"""
+    if case.n_out < 2:
+        return
+    union = np.unique(np.concatenate([np.asarray(t, dtype=float)
+                                      for t in case.times]))
+    cands = []
+    for o in range(case.n_out):
+        free_t = [t for t in union if t not in set(np.asarray(
+            case.times[o], dtype=float).tolist())]
+        if free_t and len(case.times[o]):
+            cands.append((o, free_t))
+    if not cands:
+        return
+    o, free_t = cands[int(rng.integers(len(cands)))]
+    value = [np.inf, -np.inf, np.nan][int(rng.integers(3))]
+    try:
+        model = toys.ToyMulti(case.n_out)
+        model.singular = {o: (np.array(free_t), value)}
+        ll = chi.LogLikelihood(
+            model, [getattr(chi, nm)() for nm in case.em_names],
+            [y.copy() for y in case.obs], [t.copy() for t in case.times])
+        v = ll(x)
+        pw = ll.compute_pointwise_ll(x)
+        s1, g = ll.evaluateS1(x)
+    except Exception as e:      # noqa
+        ctx.violation_exc('constructed_object_evaluates', e,
+                          {'case': case.describe(),
+                           'what': 'output not finite at an unmeasured '
+                                   'time'})
+        return
+    ctx.count('singular_unmeasured_entries')
+    ref = float(np.real(case.ref_total(x)))
+    g_ref = D.cstep_grad(lambda z: case.ref_total(z), np.asarray(x))
+    sc = abs(ref) + 1
+    gs = 1 + float(np.max(np.abs(g_ref)))
+    if not (ctx.close(v, ref, rtol=1e-9, scale=sc) and
+            ctx.close(float(np.sum(pw)), ref, rtol=1e-9, scale=sc) and
+            ctx.close(s1, ref, rtol=1e-9, scale=sc) and
+            ctx.close(np.asarray(g, dtype=float), g_ref, rtol=1e-7,
+                      scale=gs)):
+        ctx.violation('value_vs_bruteforce',
+                      'unmeasured_entry_enters_the_score',
+                      {'value': v, 'pointwise_sum': float(np.sum(pw)),
+                       's1_score': s1, 'reference': ref, 'gradient': g,
+                       'reference_gradient': g_ref, 'output': o,
+                       'times': free_t, 'entry': repr(value),
+                       'case': case.describe()})
+
+
 def toy_case(ctx, rng, idx):
     case = G.LLCase(rng)
     ctx.case(case.signature(), case.nontrivial(), sample=case.describe())
@@ -229,6 +282,8 @@ def toy_case(ctx, rng, idx):
     _forms(ctx, rng, case, ll, x, idx)
     if val is not None and idx % 5 == 2:
         _user_error_models(ctx, rng, case, x)
+    if val is not None and idx % 5 == 4:
+        _singular_elsewhere(ctx, rng, case, x)
     # boundary: a non-positive scale scores -inf (oracle: only "-inf")
     if idx % 7 == 0 and not any(len(t) == 0 for t in case.times):
         xb = x.copy()
